@@ -15,6 +15,7 @@ import (
 
 	"go.6river.tech/mmmbbb/actions"
 	"go.6river.tech/mmmbbb/grpc/pubsubpb"
+	"google.golang.org/protobuf/types/known/timestamppb"
 
 	"verif/mc/report"
 	"verif/mc/sched"
@@ -34,27 +35,119 @@ type c11Script struct {
 	fc     actions.FlowControl
 	npub   int
 	client func(conn *memConn, got <-chan uuid.UUID, w *world.World)
+	// sub: the subscription the stream is opened on (default c11Sub)
+	sub string
+	// prep runs after the npub publishes, before the state is saved
+	prep func(w *world.World) error
+	// want: how many messages the stream must have sent at quiescence (default npub)
+	want int
+}
+
+const (
+	c10Sub2   = "projects/p/subscriptions/s2"  // second plain subscription of c11Topic
+	c10SubOrd = "projects/p/subscriptions/so"  // ordered subscription of c11Topic
+	c10TopicD = "projects/p/topics/td"         // dead-letter topic
+	c10SubSrc = "projects/p/subscriptions/src" // max 1 attempt, dead-letters into td
+	c10SubD   = "projects/p/subscriptions/sd"  // subscriber of td
+)
+
+// c10State: ack ids captured by a script's prep
+var c10Ack = map[string][]string{}
+
+func c10Pull(w *world.World, sub string) error {
+	r, err := w.Sub.Pull(context.Background(), &pubsubpb.PullRequest{Subscription: sub, MaxMessages: 10, ReturnImmediately: true})
+	if err != nil {
+		return err
+	}
+	c10Ack[sub] = nil
+	for _, m := range r.ReceivedMessages {
+		c10Ack[sub] = append(c10Ack[sub], m.AckId)
+	}
+	if len(c10Ack[sub]) == 0 {
+		return fmt.Errorf("prep: nothing pulled on %s", sub)
+	}
+	return nil
+}
+
+// c10StreamScripts: a StreamingPull that waits with nothing deliverable must be
+// woken by every kind of committed change (C10), wherever the commit lands
+// relative to the sender's register / fetch / wait steps.
+func c10StreamScripts() []c11Script {
+	cctx := func() context.Context { return vsql.WithThread(context.Background(), "client") }
+	wide := actions.FlowControl{MaxMessages: 10, MaxBytes: 100000}
+	return []c11Script{
+		{name: "stream waiter: publish", fc: wide, want: 1, client: func(conn *memConn, got <-chan uuid.UUID, w *world.World) {
+			w.Pub.Publish(cctx(), &pubsubpb.PublishRequest{Topic: c11Topic, Messages: []*pubsubpb.PubsubMessage{{Data: payloadOf(10)}}})
+		}},
+		{name: "stream waiter: zero deadline spanning two subscriptions", fc: wide, npub: 1, want: 1,
+			prep: func(w *world.World) error {
+				if err := c10Pull(w, c11Sub); err != nil {
+					return err
+				}
+				return c10Pull(w, c10Sub2)
+			},
+			client: func(conn *memConn, got <-chan uuid.UUID, w *world.World) {
+				ids := append(append([]string{}, c10Ack[c10Sub2]...), c10Ack[c11Sub]...)
+				w.Sub.ModifyAckDeadline(cctx(), &pubsubpb.ModifyAckDeadlineRequest{Subscription: c10Sub2, AckIds: ids, AckDeadlineSeconds: 0})
+			}},
+		{name: "stream waiter: ack of an ordered predecessor", fc: wide, sub: c10SubOrd, want: 1,
+			prep: func(w *world.World) error {
+				if _, err := w.Pub.Publish(context.Background(), &pubsubpb.PublishRequest{Topic: c11Topic, Messages: []*pubsubpb.PubsubMessage{{Data: payloadOf(10), OrderingKey: "k"}, {Data: payloadOf(10), OrderingKey: "k"}}}); err != nil {
+					return err
+				}
+				return c10Pull(w, c10SubOrd)
+			},
+			client: func(conn *memConn, got <-chan uuid.UUID, w *world.World) {
+				w.Sub.Acknowledge(cctx(), &pubsubpb.AcknowledgeRequest{Subscription: c10SubOrd, AckIds: c10Ack[c10SubOrd]})
+			}},
+		{name: "stream waiter on the dead-letter topic: a pull on the source forwards", fc: wide, sub: c10SubD, want: 1,
+			prep: func(w *world.World) error {
+				if _, err := w.Pub.Publish(context.Background(), &pubsubpb.PublishRequest{Topic: c11Topic, Messages: []*pubsubpb.PubsubMessage{{Data: payloadOf(10)}}}); err != nil {
+					return err
+				}
+				if err := c10Pull(w, c10SubSrc); err != nil {
+					return err
+				}
+				// due again with its only attempt used up: the next pull retires and forwards it
+				_, err := w.Sub.ModifyAckDeadline(context.Background(), &pubsubpb.ModifyAckDeadlineRequest{Subscription: c10SubSrc, AckIds: c10Ack[c10SubSrc], AckDeadlineSeconds: 0})
+				return err
+			},
+			client: func(conn *memConn, got <-chan uuid.UUID, w *world.World) {
+				w.Sub.Pull(cctx(), &pubsubpb.PullRequest{Subscription: c10SubSrc, MaxMessages: 10, ReturnImmediately: true})
+			}},
+		{name: "stream waiter: seek re-opens a message", fc: wide, npub: 1, want: 1,
+			prep: func(w *world.World) error {
+				if err := c10Pull(w, c11Sub); err != nil {
+					return err
+				}
+				_, err := w.Sub.Acknowledge(context.Background(), &pubsubpb.AcknowledgeRequest{Subscription: c11Sub, AckIds: c10Ack[c11Sub]})
+				return err
+			},
+			client: func(conn *memConn, got <-chan uuid.UUID, w *world.World) {
+				w.Sub.Seek(cctx(), &pubsubpb.SeekRequest{Subscription: c11Sub, Target: &pubsubpb.SeekRequest_Time{Time: timestamppb.New(time.Unix(1, 0))}})
+			}},
+	}
 }
 
 func c11Scripts() []c11Script {
 	return []c11Script{
-		{"stream nack frees capacity", actions.FlowControl{MaxMessages: 1, MaxBytes: 1000}, 2, func(conn *memConn, got <-chan uuid.UUID, w *world.World) {
+		{name: "stream nack frees capacity", fc: actions.FlowControl{MaxMessages: 1, MaxBytes: 1000}, npub: 2, client: func(conn *memConn, got <-chan uuid.UUID, w *world.World) {
 			id := <-got
 			conn.reqs <- &actions.MessageStreamRequest{Nack: []uuid.UUID{id}}
 		}},
-		{"stream ack frees capacity", actions.FlowControl{MaxMessages: 1, MaxBytes: 1000}, 2, func(conn *memConn, got <-chan uuid.UUID, w *world.World) {
+		{name: "stream ack frees capacity", fc: actions.FlowControl{MaxMessages: 1, MaxBytes: 1000}, npub: 2, client: func(conn *memConn, got <-chan uuid.UUID, w *world.World) {
 			id := <-got
 			conn.reqs <- &actions.MessageStreamRequest{Ack: []uuid.UUID{id}}
 		}},
-		{"stream zero-deadline frees capacity", actions.FlowControl{MaxMessages: 1, MaxBytes: 1000}, 2, func(conn *memConn, got <-chan uuid.UUID, w *world.World) {
+		{name: "stream zero-deadline frees capacity", fc: actions.FlowControl{MaxMessages: 1, MaxBytes: 1000}, npub: 2, client: func(conn *memConn, got <-chan uuid.UUID, w *world.World) {
 			id := <-got
 			conn.reqs <- &actions.MessageStreamRequest{Delay: []uuid.UUID{id}, DelaySeconds: 0}
 		}},
-		{"flow control raised", actions.FlowControl{MaxMessages: 1, MaxBytes: 1000}, 2, func(conn *memConn, got <-chan uuid.UUID, w *world.World) {
+		{name: "flow control raised", fc: actions.FlowControl{MaxMessages: 1, MaxBytes: 1000}, npub: 2, client: func(conn *memConn, got <-chan uuid.UUID, w *world.World) {
 			<-got
 			conn.reqs <- &actions.MessageStreamRequest{FlowControl: &actions.FlowControl{MaxMessages: 2, MaxBytes: 1000}}
 		}},
-		{"external Acknowledge frees capacity", actions.FlowControl{MaxMessages: 1, MaxBytes: 1000}, 2, func(conn *memConn, got <-chan uuid.UUID, w *world.World) {
+		{name: "external Acknowledge frees capacity", fc: actions.FlowControl{MaxMessages: 1, MaxBytes: 1000}, npub: 2, client: func(conn *memConn, got <-chan uuid.UUID, w *world.World) {
 			id := <-got
 			w.Sub.Acknowledge(vsql.WithThread(context.Background(), "client"), &pubsubpb.AcknowledgeRequest{Subscription: c11Sub, AckIds: []string{id.String()}})
 		}},
@@ -62,6 +155,14 @@ func c11Scripts() []c11Script {
 }
 
 func c11Interleavings(t *testing.T, tier string, deadline time.Time) (map[string]any, []report.Viol, error) {
+	return streamInterleavings(t, "C11", c11Scripts(), tier, deadline)
+}
+
+func c10Interleavings(t *testing.T, tier string, deadline time.Time) (map[string]any, []report.Viol, error) {
+	return streamInterleavings(t, "C10", c10StreamScripts(), tier, deadline)
+}
+
+func streamInterleavings(t *testing.T, prop string, scripts []c11Script, tier string, deadline time.Time) (map[string]any, []report.Viol, error) {
 	bound := 2
 	if tier == "thorough" {
 		bound = 3
@@ -88,14 +189,37 @@ func c11Interleavings(t *testing.T, tier string, deadline time.Time) (map[string
 			ferr = err
 			return
 		}
-		var idStr string
-		if err := w.DB.QueryRow("SELECT id FROM subscriptions").Scan(&idStr); err != nil {
-			ferr = err
-			return
+		if prop == "C10" {
+			if _, err := w.Pub.CreateTopic(bctx, &pubsubpb.Topic{Name: c10TopicD}); err != nil {
+				ferr = err
+				return
+			}
+			for _, sub := range []*pubsubpb.Subscription{
+				{Name: c10Sub2, Topic: c11Topic},
+				{Name: c10SubOrd, Topic: c11Topic, EnableMessageOrdering: true},
+				{Name: c10SubSrc, Topic: c11Topic, DeadLetterPolicy: &pubsubpb.DeadLetterPolicy{DeadLetterTopic: c10TopicD, MaxDeliveryAttempts: 1}},
+				{Name: c10SubD, Topic: c10TopicD},
+			} {
+				if _, err := w.Sub.CreateSubscription(bctx, sub); err != nil {
+					ferr = err
+					return
+				}
+			}
 		}
-		subID := uuid.MustParse(idStr)
-		for _, sc := range c11Scripts() {
+		for _, sc := range scripts {
 			sc := sc
+			if sc.sub == "" {
+				sc.sub = c11Sub
+			}
+			if sc.want == 0 {
+				sc.want = sc.npub
+			}
+			var idStr string
+			if err := w.DB.QueryRow("SELECT id FROM subscriptions WHERE name = ?", sc.sub).Scan(&idStr); err != nil {
+				ferr = err
+				return
+			}
+			subID := uuid.MustParse(idStr)
 			if only := os.Getenv("VERIF_SCEN"); only != "" && only != sc.name {
 				continue
 			}
@@ -107,6 +231,12 @@ func c11Interleavings(t *testing.T, tier string, deadline time.Time) (map[string
 			for i := 0; i < sc.npub; i++ {
 				if _, err := w.Pub.Publish(bctx, &pubsubpb.PublishRequest{Topic: c11Topic, Messages: []*pubsubpb.PubsubMessage{{Data: payloadOf(10)}}}); err != nil {
 					ferr = err
+					return
+				}
+			}
+			if sc.prep != nil {
+				if err := sc.prep(w); err != nil {
+					ferr = fmt.Errorf("%s: %w", sc.name, err)
 					return
 				}
 			}
@@ -146,7 +276,7 @@ func c11Interleavings(t *testing.T, tier string, deadline time.Time) (map[string
 				r.RoleThreads = true
 				ctx, cancel := context.WithCancel(vsql.WithThread(context.Background(), "stream"))
 				done := make(chan error, 1)
-				ms := &actions.MessageStreamer{Client: w.Client, SubscriptionID: &subID, SubscriptionName: c11Sub, AutomaticNack: true}
+				ms := &actions.MessageStreamer{Client: w.Client, SubscriptionID: &subID, SubscriptionName: sc.sub, AutomaticNack: true}
 				r.Go("streamer", func() { done <- ms.Go(ctx, conn) })
 				r.Go("client", func() {
 					conn.reqs <- &actions.MessageStreamRequest{FlowControl: &actions.FlowControl{MaxMessages: sc.fc.MaxMessages, MaxBytes: sc.fc.MaxBytes}}
@@ -161,8 +291,10 @@ func c11Interleavings(t *testing.T, tier string, deadline time.Time) (map[string
 					vmu.Unlock()
 					if !r.Done("client") {
 						verdict = "VIOLATION the client could not deliver its request to the stream (reader stuck)"
-					} else if sent < sc.npub {
-						verdict = fmt.Sprintf("VIOLATION stall: %d of %d deliverable messages were sent although the client freed / raised its capacity and nothing else is pending", sent, sc.npub)
+					} else if sent < sc.want && prop == "C10" {
+						verdict = fmt.Sprintf("VIOLATION lost wake-up: the stream sent %d of %d messages although the change that makes a message deliverable has committed and no time has passed", sent, sc.want)
+					} else if sent < sc.want {
+						verdict = fmt.Sprintf("VIOLATION stall: %d of %d deliverable messages were sent although the client freed / raised its capacity and nothing else is pending", sent, sc.want)
 					} else {
 						verdict = "ok"
 					}
@@ -199,17 +331,17 @@ func c11Interleavings(t *testing.T, tier string, deadline time.Time) (map[string
 					}
 				}
 				if same == 5 {
-					viols = append(viols, report.Viol{Property: "C11", Check: "C11/interleavings: " + sc.name, Rule: "schedule", Text: v.Verdict, Trace: []string{fmt.Sprint(v.Choices)}})
+					viols = append(viols, report.Viol{Property: prop, Check: prop + "/interleavings: " + sc.name, Rule: "schedule", Text: v.Verdict, Trace: []string{fmt.Sprint(v.Choices)}})
 				} else {
 					ok = false
 				}
 			}
 			complete = complete && ok
 			per[sc.name] = map[string]any{"schedules": res.Executions, "decisions": res.Decisions, "preemption_bound": bound, "complete": ok, "diverged": res.Diverged, "outcomes": res.Outcomes}
-			fmt.Printf("C11/interleavings %s: schedules=%d bound=%d complete=%v diverged=%d outcomes=%v\n", sc.name, res.Executions, bound, ok, res.Diverged, res.Outcomes)
+			fmt.Printf(prop+"/interleavings %s: schedules=%d bound=%d complete=%v diverged=%d outcomes=%v\n", sc.name, res.Executions, bound, ok, res.Diverged, res.Outcomes)
 		}
 	})
 	return map[string]any{"interleaving_scenarios": per, "interleaving_schedules": total, "interleaving_decisions": decisions, "interleavings_complete": complete}, viols, ferr
 }
 
-func init() { c11Layer2 = c11Interleavings }
+func init() { c11Layer2 = c11Interleavings; c10StreamLayer = c10Interleavings }
